@@ -1985,6 +1985,13 @@ class IMAPClientCommand:
         #
         flag += self._p_re(_atom_re)
 
+        # Flags are kept as MH sequences, one `name: message numbers` line
+        # each in `.mh_sequences`: a name with a ':' in it makes that file
+        # unreadable for everybody.
+        #
+        if ":" in flag:
+            raise BadSyntax(value=f"flag '{flag}' may not contain a ':'")
+
         # The names of the system flags are case-insensitive: `\seen` and
         # `\SEEN` are `\Seen`. The rest of the server knows them in one
         # spelling only.
